@@ -128,7 +128,8 @@ class Gen:
         tsize = r.choice([256, 512])
         yield "watchdog 300s"
         yield "clock 0"
-        yield "c.new n=%d r=%d w=1 rq=1 rr=%d parts=%d tsize=%d" % (n0, R, r.choice([0, 0, 1]), parts, tsize)
+        idle = r.choice([0, 0, 3600000])      # an hour: nothing is idle during the episode
+        yield "c.new n=%d r=%d w=1 rq=1 rr=%d parts=%d tsize=%d%s" % (n0, R, r.choice([0, 0, 1]), parts, tsize, " idle_ms=%d" % idle if idle else "")
         alive = list(range(n0))
         total = n0
         keys = [(d, hx(b"r%d" % i)) for d in DMS for i in range(8)]
